@@ -61,6 +61,8 @@ func runC13(c *hx.Ctx) {
 		handover(o, c, w)
 	}
 	cleanTakeover(o, c)
+	takeoverCombos(o, c)
+	repeatedTakeovers(o, c)
 	retainedWillTakeover(o, c)
 	takeoverChainUnderTraffic(o, c)
 	killTimeoutThenConnect(o, c)
